@@ -446,9 +446,9 @@ class Interp:
             self.p.assume(K.seq_len(v) >= 0)
         elif isinstance(k, K.Set):
             self.p.assume(v.terms[0] >= 0)
-            x = self.p.fresh('sv', k.elem.leaf_sorts()[0])
-            self.p.assume(z3.Implies(v.terms[0] == 0, z3.ForAll([x], z3.Not(z3.Select(v.terms[1], x)))))
-            self.p.assume(z3.ForAll([x], z3.Implies(z3.Select(v.terms[1], x), v.terms[0] > 0)))
+            xs = [self.p.fresh('sv', srt) for srt in k.elem.leaf_sorts()]
+            self.p.assume(z3.Implies(v.terms[0] == 0, z3.ForAll(xs, z3.Not(K.nsel(v.terms[1], xs)))))
+            self.p.assume(z3.ForAll(xs, z3.Implies(K.nsel(v.terms[1], xs), v.terms[0] > 0)))
         elif isinstance(k, K.Map):
             self.p.assume(K.map_wf(v))
         elif isinstance(k, K.Tuple):
